@@ -104,7 +104,7 @@ Proof.
       (apply (c09_frame s); auto; right; left; rewrite Hw; intros [X|X]; discriminate).
   - (* WWriteHdr *) unfold step_wwritehdr in *. destruct (writer s) eqn:Hw; try assumption. cbn zeta in *.
     assert (Hnp : ~ parked (writer s)) by (rewrite Hw; intros [X|X]; discriminate).
-    destruct (f_len (o_frame (stamp_o cfg (version s) o)) =? 0).
+    destruct (f_len (o_frame o) =? 0).
     + eapply (c09_push s); eauto; try reflexivity. st_simpl_goal. apply after_frame_parked.
     + apply (c09_frame s); auto.
   - (* WWritePay *) unfold step_wwritepay in *. destruct (writer s) eqn:Hw; try assumption.
